@@ -12,5 +12,8 @@ python3-vt -c "import z3; assert z3.get_version_string().startswith('5.'), z3.ge
 z3 --version
 z3-new --version
 cvc5 --version | head -1
-if [ -x "$DIR/gosmt/selftest.py" ]; then python3-vt "$DIR/gosmt/selftest.py"; fi
+python3-vt "$DIR/spec/cvss_spec.py" | tail -3
+python3-vt "$DIR/spec/cvss4_spec.py"
+python3-vt "$DIR/gosmt/precompute.py"
+python3-vt "$DIR/gosmt/selftest.py"
 echo setup ok
